@@ -115,10 +115,29 @@ func chain(r *model.Rand, maxLen int) string {
 }
 
 // userDict draws a small consistent user dictionary (chords + attributes).
-func (w *Workload) userDict(r *model.Rand) (chordYAML, attrYAML string) {
+// Besides fresh names it may override a built-in chord by name, or give a new
+// chord a display symbol a built-in chord (or another user chord) already
+// has: the later definition must win, on every run.
+func (w *Workload) userDict(r *model.Rand) (chordYAML, attrYAML string, names []string) {
 	attrYAML = "- name: MyFlat10\n  degree: \"b10\"\n- name: MySharp11\n  degree: \"#11\"\n"
 	chordYAML = "- name: MyChord\n  meta:\n    display: my\n  attributes:\n    - Perfect1\n    - Major3\n    - MyFlat10\n" +
 		"- name: MyChild\n  meta:\n    display: my11\n  extends: MyChord\n  attributes:\n    - MySharp11\n"
+	names = []string{"MyChord", "my", "MyChild", "my11"}
+	switch r.Intn(5) {
+	case 0: // display collides with a built-in display
+		chordYAML += "- name: MinorAddNinth\n  meta:\n    display: m\n  extends: MinorTriad\n  attributes:\n    - Major9\n"
+		names = append(names, "m", "MinorAddNinth", "MinorTriad")
+	case 1: // override a built-in by name, with another display
+		chordYAML += "- name: DominantSeventh\n  meta:\n    display: dom7\n  extends: MajorTriad\n  attributes:\n    - Minor7\n    - Major9\n"
+		names = append(names, "7", "dom7", "DominantSeventh")
+	case 2: // two user chords share one display
+		chordYAML += "- name: TwinA\n  meta:\n    display: tw\n  attributes:\n    - Perfect1\n    - Perfect5\n" +
+			"- name: TwinB\n  meta:\n    display: tw\n  attributes:\n    - Perfect1\n    - Perfect4\n"
+		names = append(names, "tw", "TwinA", "TwinB")
+	case 3: // a user chord's display equals a built-in chord's name
+		chordYAML += "- name: Shadow\n  meta:\n    display: MinorTriad\n  attributes:\n    - Perfect1\n    - Major2\n"
+		names = append(names, "MinorTriad", "Shadow", "m")
+	}
 	return
 }
 
@@ -126,7 +145,7 @@ func (w *Workload) userDict(r *model.Rand) (chordYAML, attrYAML string) {
 func (w *Workload) GenText(r *model.Rand, big bool) Base {
 	mode := model.Pick(r, []string{"syllable", "degree"})
 	o := &model.TextOpts{Mode: mode, MaxItems: 8, Trivia: r.Chance(2, 3), Unicode: r.Chance(1, 3), Exotic: r.Chance(1, 5),
-		Meta: r.Chance(2, 3), Musical: true, KnownSyms: w.ChordSyms, EndComment: false}
+		Meta: r.Chance(2, 3), Musical: !r.Chance(1, 6), KnownSyms: w.ChordSyms, EndComment: false}
 	if big {
 		o.MaxItems = 150
 	}
@@ -152,6 +171,17 @@ func (w *Workload) GenDocCmd(r *model.Rand, big bool) Base {
 		o.MaxInsts = 120
 	}
 	d := model.GenDoc(r, o)
+	if r.Chance(1, 12) {
+		// degrees far outside anything playable
+		i := r.Intn(len(d.Insts))
+		if c := d.Insts[i].Chord; c != nil {
+			if r.Chance(1, 2) {
+				c.Degree = model.Pick(r, model.DocDegreesHuge)
+			} else {
+				c.Base = model.Pick(r, model.DocDegreesHuge)
+			}
+		}
+	}
 	var argv []string
 	switch r.Intn(6) {
 	case 0, 1:
@@ -227,15 +257,34 @@ func (w *Workload) GenInfo(r *model.Rand) Base {
 	return b
 }
 
-// WithDict adds a user dictionary to a command.
+// WithDict adds a user dictionary to a command and makes the input use it.
 func (w *Workload) WithDict(r *model.Rand, b *Base) {
-	c, a := w.userDict(r)
+	c, a, names := w.userDict(r)
 	if b.Files == nil {
 		b.Files = map[string]*simrt.FileSpec{}
 	}
 	b.Files["/sim/chords.yml"] = &simrt.FileSpec{Data: []byte(c), Plan: GenPlan(r)}
 	b.Files["/sim/attrs.yml"] = &simrt.FileSpec{Data: []byte(a), Plan: GenPlan(r)}
 	b.Argv = append(b.Argv, "--attr", "/sim/attrs.yml", "--chord", "/sim/chords.yml")
+	switch b.Class {
+	case "doc":
+		for i := 0; i < 3; i++ {
+			b.Input = append(b.Input, []byte("- chord:\n    degree: \""+model.Pick(r, []string{"1", "4", "b7"})+"\"\n    name: \""+model.Pick(r, names)+"\"\n  values:\n    - \"1\"\n")...)
+		}
+	case "info":
+		if len(b.Argv) >= 3 && b.Argv[1] == "chord" && b.Argv[2] == "describe" {
+			nm := model.Pick(r, names)
+			t := "C" + nm
+			if strings.ContainsRune("CDEFGABRb#0123456789", rune(nm[0])) {
+				t = "C_" + nm
+			}
+			for i := range b.Argv {
+				if b.Argv[i] == "-t" && i+1 < len(b.Argv) {
+					b.Argv[i+1] = t
+				}
+			}
+		}
+	}
 }
 
 // StepOf turns a base command into the identity step (input on stdin).
